@@ -10,8 +10,8 @@ Definition ack_of (c : cfg) (s : srv) (eio : str) (payload : pv) (tbl : jtable)
               | Ok (r', true) => if type_is (rp r') BINARY_EVENT then None
                                  else Some (pns (rp r'), pid (rp r'), pdata (rp r'))
               | _ => None end
-  | None => match decode (table_loads tbl) payload with
-            | Ok r => if type_is (rp r) ACK && uses_binary c
+  | None => match decode_any c (table_loads tbl) payload with
+            | Ok r => if type_is (rp r) ACK
                       then Some (pns (rp r), pid (rp r), pdata (rp r)) else None
             | Err _ => None end
   end.
